@@ -587,7 +587,9 @@ def run_case(case):
     try:
         with warnings.catch_warnings():
             warnings.simplefilter("ignore")
-            if op == "deep" and case.get("via") == "file":
+            if op == "dict_to_stix2" or (op == "deep" and case.get("via") == "dict_to_stix2"):
+                r = stix2.parsing.dict_to_stix2(data, allow_custom=allow_custom, interoperability=interop, version=version)
+            elif op == "deep" and case.get("via") == "file":
                 r = stix2.parse(io.StringIO(data), allow_custom=allow_custom, version=version)
             elif op == "deep" and case.get("via") == "parse_observable":
                 r = stix2.parse_observable(data, [], allow_custom=allow_custom, version=version)
